@@ -1,6 +1,6 @@
 ---------------------------- MODULE Gen_Nowiki ----------------------------
 EXTENDS Nowiki, Json
-CONSTANTS MaxTok, Mode, Depth   \* Mode = "nowiki" | "comment" | "nested" (frames up to Depth deep)
+CONSTANTS MaxTok, Mode, Depth, DeepAll   \* Mode = "nowiki" | "comment" | "nested" (frames up to Depth deep)
 
 \* token alphabet for payloads (each token a sequence of characters)
 Tokens == { <<"{", "{", "T", "1", "|", "x", "}", "}">>, <<"{", "{", "{", "1", "}", "}", "}">>, <<"[", "[", "a", "]", "]">>,
@@ -23,12 +23,19 @@ Docs == { <<[k |-> "t", s |-> t1], [k |-> "c", s |-> c1], [k |-> "t", s |-> t2]>
                  t1 \in {<<"a", "NL">>, <<>>}, c1 \in CommentPayloads }
 
 \* payloads of the nested universe: between them they hold every character of the entity table,
-\* a template call, a link, table / list / heading markup, a magic word, comment delimiters;
-\* with MaxTok >= 1 every payload of <= MaxTok tokens is used as well
-NestPayloads == { <<"{", "{", "T", "1", "|", "x", "}", "}", "|", "}">>, <<"[", "[", "a", "]", "]", "=", "=">>,
-                  <<"_", "_", "T", "O", "C", "_", "_", "<", "!", "-", "-">>, <<"*", "#", ":", ";", "\"", "'", "'", "-", "-", ">">> }
-                \cup (IF MaxTok >= 1 THEN Payloads ELSE {})
-NestCases(z) == UNION { { [fs |-> fs, o |-> o, c |-> c] : o \in OptsFor(fs), c \in NestPayloads } : fs \in NestStacks(Depth) }
+\* a template call, a link, table / list / heading markup, a magic word, comment delimiters.
+\* What the frames do does not depend on the payload (it is one stored item while they are
+\* processed), so a case is (frames, options) and carries one variant per payload; contexts of
+\* fewer than Depth frames get all four payloads, the deepest ones all four only if DeepAll
+\* (else one, chosen by position-weighted frame numbers so that all four occur)
+PaySeq == << <<"{", "{", "T", "1", "|", "x", "}", "}", "|", "}">>, <<"[", "[", "a", "]", "]", "=", "=">>,
+             <<"_", "_", "T", "O", "C", "_", "_", "<", "!", "-", "-">>, <<"*", "#", ":", ";", "\"", "'", "'", "-", "-", ">">> >>
+FrameSeq == <<"text", "link", "ext", "T1", "if", "uc", "inv", "dt", "da", "dl", "ad", "tsib">>
+FNum(f) == CHOOSE i \in 1..Len(FrameSeq) : FrameSeq[i] = f
+RECURSIVE Weight(_, _)
+Weight(fs, k) == IF fs = <<>> THEN 0 ELSE k * FNum(fs[1]) + Weight(Tail(fs), k + 1)
+PayIdx(fs) == IF Len(fs) < Depth \/ DeepAll THEN <<1, 2, 3, 4>> ELSE << (Weight(fs, 1) % 4) + 1 >>
+NestCases(z) == UNION { { [fs |-> fs, o |-> o] : o \in OptsFor(fs) } : fs \in NestStacks(Depth) }
 
 VARIABLE case
 Init == IF Mode = "nested" THEN case \in NestCases(0)
@@ -37,11 +44,13 @@ Init == IF Mode = "nested" THEN case \in NestCases(0)
 Next == UNCHANGED case
 Spec == Init /\ [][Next]_case
 
-Laws == Mode \in {"nowiki", "nested"} => Recoverable(case.c) /\ Inert(case.c)
+NestVariant(fs, r, c) == [c |-> c, q |-> Quote(c), input |-> NInput(fs, c), expanded |-> Fin(r, c), must |-> Demand(fs, r)]
+Laws == /\ Mode = "nowiki" => Recoverable(case.c) /\ Inert(case.c)
+        /\ Mode = "nested" => \A i \in 1..Len(PaySeq) : Recoverable(PaySeq[i]) /\ Inert(PaySeq[i])
 Emit == IF Mode = "nested"
-        THEN PrintT(<<"CASE", ToJson([fs |-> case.fs, o |-> case.o, c |-> case.c, q |-> Quote(case.c), input |-> NInput(case.fs, case.c),
-                                      expanded |-> NExpanded(case.fs, case.o, case.c), exact |-> ~Ambiguous(case.fs),
-                                      must |-> Demand(case.fs, case.o, case.c)])>>)
+        THEN \E r \in {ER(Build(case.fs), TopMode(case.o), FALSE, case.o)} : \E pi \in {PayIdx(case.fs)} :
+               PrintT(<<"CASE", ToJson([fs |-> case.fs, o |-> case.o, exact |-> ~Ambiguous(case.fs),
+                        vars |-> [i \in 1..Len(pi) |-> NestVariant(case.fs, r, PaySeq[pi[i]])]])>>)
         ELSE IF Mode = "nowiki"
         THEN PrintT(<<"CASE", ToJson([ctx |-> case.ctx, input |-> Input(case.ctx, case.c), expanded |-> Expanded(case.ctx, case.c),
                                       path |-> LeafPath(case.ctx), leaf |-> LeafText(case.ctx, case.c), c |-> case.c])>>)
